@@ -23,6 +23,8 @@ WITH_NEUTRON = [[26, 0, 0], [26, 56, 0], [1, 0, 0], [1, 2, 0], [64, 0, 0], [79, 
 ENERGY_DEP = [[64, 0, 0], [64, 155, 0], [64, 157, 0], [71, 0, 0], [71, 176, 0], [62, 149, 0], [62, 0, 0], [63, 151, 0], [66, 164, 0], [68, 167, 0], [70, 168, 0]]
 MAGNETIC = [[26, 0, 0], [28, 0, 0], [25, 0, 0], [64, 0, 0], [27, 0, 0]]
 ACTIVATED = [[27, 59, 0], [79, 197, 0], [11, 23, 0], [26, 58, 0], [13, 27, 0]]
+SETATTR = {"_mass", "_density", "_abundance", "_mass_unc", "_abundance_unc", "covalent_radius",
+           "covalent_radius_uncertainty", "K_alpha", "K_beta1", "density_caveat", "nuclear_spin"}
 CRYSTAL = [[26, 0, 0], [29, 0, 0], [13, 0, 0], [6, 0, 0]]
 
 
@@ -67,6 +69,8 @@ def gen_mutation(rng, V, tbl, pred, allow_known):
     ev = ["mutate", tbl, atom, target]
     if target == "add_isotope":
         ev.append(rng.choice([40, 99]))
+    elif target in SETATTR and rng.random() < 0.25:
+        ev.append(rng.choice(["<none>", "<none>", "<del>"]))     # the user blanks or deletes the value instead
     return ev
 
 
